@@ -249,6 +249,8 @@ def main(argv: list[str]) -> int:
                 mismatches.append({"case": strip_case(c), "impl": proj, "model": resp, "why": "model gave no answer"})
                 continue
             mo = resp["out"]
+            if hasattr(plugin, "project_model"):
+                mo = plugin.project_model(c, mo)
             if hasattr(plugin, "model_unmodelled") and plugin.model_unmodelled(mo):
                 st.setdefault("unmodelled", 0)
                 st["unmodelled"] += 1
@@ -414,7 +416,12 @@ def replay(pid: str, path: Path) -> int:
     if not path.is_absolute() and not path.exists():
         path = VERIF / path
     j = json.loads(path.read_text())
-    case = j.get("case") or (j.get("smallest_disagreement") or {}).get("case")
+    if isinstance(j, list):
+        j = j[0]
+    if "op" in j and "case" in j:  # corpus format
+        case = j
+    else:
+        case = j.get("case") or (j.get("smallest_disagreement") or {}).get("case")
     if case is None:
         print(f"replay {path}: no concrete input ({j.get('kind')}): {canon(j.get('broken'))[:1500]}")
         b = leanproj.build()
